@@ -232,7 +232,7 @@ def ordering(chk, prog):
     ps = prog.bodies.get(TREE + "parse_section")
     if ps:
         pushes = [t["callee"].split("::")[-1] for blk, t in ps.calls_to(r"Vec::<T, A>::(push|insert|sort|reverse|swap|retain)$|Extend<.*>>::extend$")]
-        chk.ob("R3.order", ps.path, "section children are appended in line order", all(p in ("push", "extend") for p in pushes) and len(pushes) >= 6, f"{pushes}")
+        chk.ob("R3.order", ps.path, "section children are appended in line order", all(p in ("push", "extend") for p in pushes) and len(pushes) >= 2, f"{pushes}")
 
 
 def quoted_values(chk, prog):
